@@ -1847,6 +1847,33 @@ impl<'a, const HAS_CR: bool> Parser<'a, HAS_CR> {
         }
     }
 
+    /// The indentation a plain scalar that starts its *own line* at `indent`
+    /// must stay deeper than on its continuation lines: that of the block
+    /// collection it is a value of, not of its own first line.
+    ///
+    /// `-\n  a\n  b` is the one-element sequence `["a b"]`: the entry sits
+    /// at n = 0, so every line indented by more than n continues the scalar
+    /// (`s-flow-line-prefix(n+1)`), including one at the first line's own
+    /// column. Measuring from the first line instead ended the scalar there
+    /// and silently dropped every line after it. `parse_mapping_entry` already
+    /// passes the key's indent for its own next-line value; this is the same
+    /// rule for the values that reach [`Self::parse_block_node`] instead — a
+    /// sequence item's, a compact mapping's (`- k:`), an explicit `? `/`: `
+    /// entry's, or one deferred past a property (`k: &a`).
+    ///
+    /// Call after `close_deeper_indents(indent)`, so the top frame is the
+    /// scalar's parent. Anything else on top (malformed input) keeps `indent`.
+    fn own_line_scalar_parent_indent(&self, indent: usize) -> usize {
+        let frame_indent = self.indent_stack.last().copied().unwrap_or(indent);
+        let parent_indent = match self.current_type {
+            // A sequence item's frame is its sequence's indent plus one.
+            Some(NodeType::SequenceItem) => frame_indent.saturating_sub(1),
+            Some(NodeType::Mapping) => frame_indent,
+            _ => indent,
+        };
+        parent_indent.min(indent)
+    }
+
     /// Whether a sequence frame at `indent_stack[frame_idx]` should still hold
     /// an item at `indent`: either an exact indent match (the ordinary case)
     /// or, leniently, an out-of-range indent strictly between the sequence
@@ -5632,7 +5659,9 @@ impl<'a, const HAS_CR: bool> Parser<'a, HAS_CR> {
                                     if is_truly_doc_root {
                                         self.parse_unquoted_value_doc_root(indent)
                                     } else {
-                                        self.parse_unquoted_value_with_indent(indent)
+                                        self.parse_unquoted_value_with_indent(
+                                            self.own_line_scalar_parent_indent(indent),
+                                        )
                                     }
                                 }
                             };
@@ -5696,7 +5725,9 @@ impl<'a, const HAS_CR: bool> Parser<'a, HAS_CR> {
                             if is_truly_doc_root {
                                 self.parse_unquoted_value_doc_root(indent)
                             } else {
-                                self.parse_unquoted_value_with_indent(indent)
+                                self.parse_unquoted_value_with_indent(
+                                    self.own_line_scalar_parent_indent(indent),
+                                )
                             }
                         }
                     };
@@ -6968,6 +6999,39 @@ mod tests {
             "explicit key 'a's scalar must stop before ': 1' (not swallow it into the key text), \
              and the resulting misaligned ':' must then be rejected, not silently paired with 'a'; got {err:?}"
         );
+    }
+
+    /// A plain scalar that starts on the line after its `-`, `k:` or `:`
+    /// indicator continues on every following line indented deeper than that
+    /// *indicator's* collection, including lines at the first line's own
+    /// column. Only the block-mapping form (`key:\n  a\n  b`) got this right;
+    /// the others measured from the scalar's first line and silently dropped
+    /// the rest of it.
+    #[test]
+    fn next_line_plain_scalar_continues_at_its_own_column() {
+        for (yaml, expected) in [
+            (&b"-\n  a\n  b\n"[..], "[\"a b\"]"),
+            (b"- k:\n     a\n     b\n", "[{\"k\":\"a b\"}]"),
+            (b"? k\n:\n  a\n  b\n", "{\"k\":\"a b\"}"),
+            (b"?\n  a\n  b\n: v\n", "{\"a b\":\"v\"}"),
+            (b"k: &x\n  a\n  b\n", "{\"k\":\"a b\"}"),
+            (b"- &x\n  a\n  b\n", "[\"a b\"]"),
+            (b"-\n  &x a\n  b\n", "[\"a b\"]"),
+            // Deeper than the sequence is enough; the first line's column is not a floor.
+            (b"-\n    a\n  b\n- c\n", "[\"a b\",\"c\"]"),
+            (b"key:\n  a\n  b\n", "{\"key\":\"a b\"}"),
+            // A line at the collection's own indent still ends the scalar.
+            (b"k:\n-\n  a\n  b\n- c\n", "{\"k\":[\"a b\",\"c\"]}"),
+            (b"-\n  a\n  # c\n- b\n", "[\"a\",\"b\"]"),
+        ] {
+            let index = crate::yaml::YamlIndex::build(yaml).expect("should parse");
+            assert_eq!(
+                index.root(yaml).to_json_document(),
+                expected,
+                "input: {:?}",
+                core::str::from_utf8(yaml)
+            );
+        }
     }
 
     /// A flow plain scalar ends at its last content byte when only blank lines
